@@ -17,6 +17,18 @@
 //	wstat mode    -> Chmod(mode&0777)
 //	wstat mtime   -> Chtimes
 //
+// The initial tree is prepared on the host (the sandbox runs as root) and may
+// hold what Ufs itself cannot create but can be asked to change: set-uid,
+// set-gid and sticky bits on files, directories and FIFOs, foreign owners and
+// groups, FIFOs, sockets and a character device node (1:3). Both twins are
+// prepared by the same code. The comparison after every step is on the whole
+// st_mode (type, special bits, permission bits), owner, group and device
+// number of every object, not only on the permission bits.
+//
+// open(2) of a FIFO waits for a peer on both sides alike; steps whose
+// corresponding POSIX operation would open a FIFO without O_RDWR are therefore
+// not generated (and refused by the executor as a harness error).
+//
 // After every step: Rerror iff the B operation failed; in 9P2000.u the ecode is
 // the errno of the failing B operation; A and B are compared recursively; a
 // create/remove answered with Rerror left A unchanged; after a successful
@@ -64,13 +76,17 @@ const (
 
 // Node is one object of the initial tree (parents come before children).
 type Node struct {
-	Path   [][]byte `json:"path"`
-	Kind   string   `json:"kind"` // file dir symlink link
-	Perm   uint32   `json:"perm"`
-	Data   []byte   `json:"data,omitempty"`
-	Target []byte   `json:"target,omitempty"`
-	Src    [][]byte `json:"src,omitempty"`
-	Mtime  uint32   `json:"mtime,omitempty"` // 0 = not set explicitly
+	Path [][]byte `json:"path"`
+	Kind string   `json:"kind"` // file dir symlink link fifo socket chardev
+	Perm uint32   `json:"perm"`
+	// host-prepared attributes (file, dir, fifo, socket, chardev only)
+	Special uint32   `json:"special,omitempty"` // subset of 07000: set-uid, set-gid, sticky
+	Uid     uint32   `json:"uid,omitempty"`
+	Gid     uint32   `json:"gid,omitempty"`
+	Data    []byte   `json:"data,omitempty"`
+	Target  []byte   `json:"target,omitempty"`
+	Src     [][]byte `json:"src,omitempty"`
+	Mtime   uint32   `json:"mtime,omitempty"` // 0 = not set explicitly
 }
 
 // WriteOp is one Twrite / WriteAt pair.
@@ -136,6 +152,9 @@ type ent struct {
 	Ino     uint64
 	Msec    int64
 	Mnsec   int64
+	Uid     uint32
+	Gid     uint32
+	Rdev    uint64
 	Target  string
 	Content string
 }
@@ -149,7 +168,80 @@ func (e *ent) kind() string {
 	case syscall.S_IFLNK:
 		return "symlink"
 	}
-	return fmt.Sprintf("type%o", e.Mode&syscall.S_IFMT)
+	return typeName(e.Mode)
+}
+
+func typeName(mode uint32) string {
+	switch mode & syscall.S_IFMT {
+	case syscall.S_IFREG:
+		return "file"
+	case syscall.S_IFDIR:
+		return "dir"
+	case syscall.S_IFLNK:
+		return "symlink"
+	case syscall.S_IFIFO:
+		return "fifo"
+	case syscall.S_IFSOCK:
+		return "socket"
+	case syscall.S_IFCHR:
+		return "chardev"
+	case syscall.S_IFBLK:
+		return "blockdev"
+	}
+	return fmt.Sprintf("type%o", mode&syscall.S_IFMT)
+}
+
+// attrClass names the host-prepared attributes an object carries: a special
+// object type, special mode bits, a foreign owner or group ("" = none).
+func attrClass(st *syscall.Stat_t) string {
+	var p []string
+	switch st.Mode & syscall.S_IFMT {
+	case syscall.S_IFREG, syscall.S_IFDIR, syscall.S_IFLNK:
+	default:
+		p = append(p, typeName(st.Mode))
+	}
+	if st.Mode&syscall.S_IFMT != syscall.S_IFLNK {
+		if st.Mode&syscall.S_ISUID != 0 {
+			p = append(p, "setuid")
+		}
+		if st.Mode&syscall.S_ISGID != 0 {
+			p = append(p, "setgid")
+		}
+		if st.Mode&syscall.S_ISVTX != 0 {
+			p = append(p, "sticky")
+		}
+	}
+	if st.Uid != 0 || st.Gid != 0 {
+		p = append(p, "owned")
+	}
+	return strings.Join(p, "+")
+}
+
+func attrOf(p string) string {
+	fi, err := os.Lstat(p)
+	if err != nil {
+		return ""
+	}
+	return attrClass(fi.Sys().(*syscall.Stat_t))
+}
+
+// joinAttr combines the attribute classes of the objects a step touches.
+func joinAttr(role string, a string, rest ...string) string {
+	out := ""
+	add := func(role, a string) {
+		if a == "" {
+			return
+		}
+		if out != "" {
+			out += " "
+		}
+		out += role + "=" + a
+	}
+	add(role, a)
+	for i := 0; i+1 < len(rest); i += 2 {
+		add(rest[i], rest[i+1])
+	}
+	return out
 }
 
 func scan(root string) ([]ent, error) {
@@ -161,7 +253,10 @@ func scan(root string) ([]ent, error) {
 			return err
 		}
 		st := fi.Sys().(*syscall.Stat_t)
-		e := ent{Rel: rel, Mode: st.Mode, Nlink: uint64(st.Nlink), Ino: st.Ino, Msec: int64(st.Mtim.Sec), Mnsec: int64(st.Mtim.Nsec)}
+		e := ent{Rel: rel, Mode: st.Mode, Nlink: uint64(st.Nlink), Ino: st.Ino, Msec: int64(st.Mtim.Sec), Mnsec: int64(st.Mtim.Nsec), Uid: st.Uid, Gid: st.Gid}
+		if t := st.Mode & syscall.S_IFMT; t == syscall.S_IFCHR || t == syscall.S_IFBLK {
+			e.Rdev = uint64(st.Rdev)
+		}
 		switch st.Mode & syscall.S_IFMT {
 		case syscall.S_IFREG:
 			e.Size = st.Size
@@ -243,7 +338,13 @@ func diffTrees(a, b []ent, an, bn string, self bool) string {
 			return fmt.Sprintf("%s: kind %s in %s, %s in %s", q(x.Rel), x.kind(), an, y.kind(), bn)
 		}
 		if x.Mode != y.Mode {
-			return fmt.Sprintf("%s (%s): mode bits %04o in %s, %04o in %s", q(x.Rel), x.kind(), x.Mode&07777, an, y.Mode&07777, bn)
+			return fmt.Sprintf("%s (%s): st_mode %07o (%s) in %s, %07o (%s) in %s", q(x.Rel), x.kind(), x.Mode, modeText(x.Mode), an, y.Mode, modeText(y.Mode), bn)
+		}
+		if x.Uid != y.Uid || x.Gid != y.Gid {
+			return fmt.Sprintf("%s (%s): owner %d:%d in %s, %d:%d in %s", q(x.Rel), x.kind(), x.Uid, x.Gid, an, y.Uid, y.Gid, bn)
+		}
+		if x.Rdev != y.Rdev {
+			return fmt.Sprintf("%s (%s): device number %#x in %s, %#x in %s", q(x.Rel), x.kind(), x.Rdev, an, y.Rdev, bn)
 		}
 		if x.Size != y.Size {
 			return fmt.Sprintf("%s (%s): size %d in %s, %d in %s", q(x.Rel), x.kind(), x.Size, an, y.Size, bn)
@@ -281,6 +382,24 @@ func diffTrees(a, b []ent, an, bn string, self bool) string {
 		}
 	}
 	return ""
+}
+
+// modeText spells the special bits of an st_mode.
+func modeText(mode uint32) string {
+	var p []string
+	if mode&syscall.S_ISUID != 0 {
+		p = append(p, "set-uid")
+	}
+	if mode&syscall.S_ISGID != 0 {
+		p = append(p, "set-gid")
+	}
+	if mode&syscall.S_ISVTX != 0 {
+		p = append(p, "sticky")
+	}
+	if len(p) == 0 {
+		return "no special bits"
+	}
+	return strings.Join(p, ", ")
 }
 
 func firstDiff(a, b string) int {
@@ -333,30 +452,59 @@ func buildTree(root string, nodes []Node) error {
 			err = os.Symlink(string(n.Target), p)
 		case "link":
 			err = os.Link(under(root, n.Src), p)
+		case "fifo":
+			err = syscall.Mkfifo(p, 0o600)
+		case "socket":
+			err = syscall.Mknod(p, syscall.S_IFSOCK|0o600, 0)
+		case "chardev":
+			err = syscall.Mknod(p, syscall.S_IFCHR|0o600, nullDev)
 		default:
 			err = fmt.Errorf("unknown node kind %q", n.Kind)
 		}
 		if err != nil {
-			return err
+			return fmt.Errorf("%s %s: %w", n.Kind, q(relOf(n.Path)), err)
 		}
 	}
+	// owner first (chown(2) clears set-id bits), then the whole mode with the
+	// raw system call (os.Chmod translates FileMode bits)
 	for i := range nodes {
 		n := &nodes[i]
-		if n.Kind == "file" || n.Kind == "dir" {
-			if err := os.Chmod(under(root, n.Path), os.FileMode(n.Perm&0o777)); err != nil {
-				return err
+		if hasMode(n.Kind) && (n.Uid != 0 || n.Gid != 0) {
+			if err := syscall.Lchown(under(root, n.Path), int(n.Uid), int(n.Gid)); err != nil {
+				return fmt.Errorf("chown %s: %w", q(relOf(n.Path)), err)
 			}
 		}
 	}
 	for i := range nodes {
 		n := &nodes[i]
-		if n.Mtime != 0 && (n.Kind == "file" || n.Kind == "dir") {
+		if hasMode(n.Kind) {
+			if err := syscall.Chmod(under(root, n.Path), n.Perm&0o777|n.Special&0o7000); err != nil {
+				return fmt.Errorf("chmod %s: %w", q(relOf(n.Path)), err)
+			}
+		}
+	}
+	for i := range nodes {
+		n := &nodes[i]
+		if n.Mtime != 0 && hasMode(n.Kind) {
 			if err := os.Chtimes(under(root, n.Path), time.Time{}, time.Unix(int64(n.Mtime), 0)); err != nil {
 				return err
 			}
 		}
 	}
 	return nil
+}
+
+// nullDev is the device number of the character device node the initial tree
+// may hold (1:3, the null device: harmless should anything open it).
+const nullDev = 1<<8 | 3
+
+// hasMode: node kinds that carry a mode, an owner and an mtime of their own.
+func hasMode(kind string) bool {
+	switch kind {
+	case "file", "dir", "fifo", "socket", "chardev":
+		return true
+	}
+	return false
 }
 
 // ---------------------------------------------------------------------------
@@ -384,6 +532,7 @@ type Outcome struct {
 	Result   string // "ok" or an errno name (of the B operation)
 	BFailed  bool
 	Touched  bool     // the step changed an object created earlier in the same history
+	Attr     string   // host-prepared attributes of the objects the step touches ("" = none)
 	Known    []string // listed findings observed (already reported with hx.Known by the caller)
 	KnownMsg []string
 }
@@ -795,7 +944,13 @@ func lkind(p string) string {
 	case fi.Mode().IsRegular():
 		return "file"
 	}
-	return "other"
+	return typeName(fi.Sys().(*syscall.Stat_t).Mode)
+}
+
+// isFifo: p (followed) is a FIFO; opening it would wait for a peer.
+func isFifo(p string) bool {
+	fi, err := os.Stat(p)
+	return err == nil && fi.Mode()&os.ModeNamedPipe != 0
 }
 
 func nameClass(n []byte) string {
@@ -913,6 +1068,16 @@ func (m *machine) execCreate(o *Outcome, s *Step) error {
 	occ := lkind(tB)
 	if oi, ok := inoOf(tB); ok && m.created[oi] {
 		o.Touched = true
+	}
+	o.Attr = joinAttr("parent", attrOf(under(m.B, s.Path)), "at", attrOf(tB))
+	if s.Kind == "link" {
+		o.Attr = joinAttr("parent", attrOf(under(m.B, s.Path)), "at", attrOf(tB), "src", attrOf(under(m.B, s.Src)))
+	}
+	if s.Kind == "file" && isFifo(tB) {
+		return harnessf("create of a file on a name that is (or leads to) a FIFO: the open waits for a peer on both sides; the generator must not produce it")
+	}
+	if s.Kind == "link" && lkind(under(m.B, s.Src)) == "fifo" && s.Mode&3 != oRdwr {
+		return harnessf("hard link to a FIFO with an open mode other than ORDWR: the open of the new name waits for a peer; the generator must not produce it")
 	}
 	o.ArgClass = fmt.Sprintf("%s name=%s at=%s", s.Kind, nameClass(s.Name), occ)
 	o.Label = strings.Replace(o.ArgClass, "name=len255", "name=plain", 1)
@@ -1204,6 +1369,12 @@ func (m *machine) execWrite(o *Outcome, s *Step) error {
 	if fi, err := os.Stat(tB); err == nil {
 		size = fi.Size()
 	}
+	if isFifo(tB) && !h.opened {
+		return harnessf("write step on %s, which is (or leads to) a FIFO: the open waits for a peer on both sides; the generator must not produce it", q(relOf(s.Path)))
+	}
+	if fi, err := os.Stat(tB); err == nil {
+		o.Attr = joinAttr("on", attrClass(fi.Sys().(*syscall.Stat_t)))
+	}
 	o.ArgClass = fmt.Sprintf("via=%s mode=%d n=%d", lkind(tB), s.Mode, len(s.Writes))
 	o.Label = "via=" + lkind(tB)
 	if len(s.Writes) > 0 {
@@ -1311,6 +1482,7 @@ func (m *machine) execRemove(o *Outcome, s *Step) error {
 		o.Touched = true
 	}
 	o.ArgClass = m.removeClass(tB)
+	o.Attr = joinAttr("on", attrOf(tB), "parent", attrOf(tB[:strings.LastIndexByte(tB, '/')]))
 	if s.Twice {
 		o.ArgClass += " twice"
 	}
@@ -1406,6 +1578,15 @@ func (m *machine) execWstat(o *Outcome, s *Step) error {
 	}
 	parentB := tB[:strings.LastIndexByte(tB, '/')]
 	oldName := string(s.Path[len(s.Path)-1])
+	o.Attr = joinAttr("on", attrOf(tB))
+	if len(s.Name) > 0 {
+		o.Attr = joinAttr("on", attrOf(tB), "parent", attrOf(parentB), "onto", attrOf(parentB+"/"+string(s.Name)))
+	}
+	if s.SetLen {
+		if fi, err := os.Stat(tB); err == nil && fi.Mode().IsRegular() && lkind(tB) == "symlink" {
+			o.Attr = joinAttr("on", attrOf(tB), "target", attrClass(fi.Sys().(*syscall.Stat_t)))
+		}
+	}
 
 	// argument class
 	var parts []string
